@@ -16,11 +16,15 @@ FAMILY = Family(
                   methods={'level': 'Dyn_level', 'pgm': 'Dyn_pgm', 'has_pgm': 'Dyn_has_pgm', 'max_size': 'Dyn_max_size',
                            'max_fully_allocated_level': 'Dyn_max_fully_allocated_level', 'ceil_log_base': 'Dyn_ceil_log_base',
                            'ceil_log2': 'Dyn_ceil_log2', 'lower_bound_bl': 'Dyn_lower_bound_bl', 'merge': 'Dyn_merge', 'end': 'Dyn_end',
-                           'find': 'Dyn_find', 'insert': 'Dyn_insert', 'pairwise_merge': 'Dyn_pairwise_merge', 'range': 'Dyn_range'}),
+                           'find': 'Dyn_find', 'count': 'Dyn_count', 'insert': 'Dyn_insert', 'pairwise_merge': 'Dyn_pairwise_merge', 'range': 'Dyn_range'}),
     ],
     extra_structs={'ApproxPos': {'pos': 'size_t', 'lo': 'size_t', 'hi': 'size_t'}, 'PGMType': {'n': 'size_t', 'stamp': 'size_t'},
                    'DynIt': {'level': 'uint8_t', 'idx': 'size_t'}, 'PairKV': {'first': 'K', 'second': 'V'}, 'vec_Item': {'data': 'Ptr<Item>', 'size': 'size_t', 'cap': 'size_t'}},
     conv={'Item': 'first'},
+    ops={('DynIt', '==', 'DynIt'): ('bool', 'DynIt_eq'), ('DynIt', '!=', 'DynIt'): ('bool', 'DynIt_ne')},
+    # Iterator::operator== / != are rendered by hand over the (level, position) form of the iterator; an edit of either is an extraction break
+    verbatim=[(HPP, 'Iterator', 0, 'operator==', 0, 'return current.level_number == rhs.current.level_number && current.iterator == rhs.current.iterator;'),
+              (HPP, 'Iterator', 0, 'operator!=', 0, 'return !(*this == rhs);')],
     struct_methods={('PGMType', 'search'): FuncInfo('PGMType_search', 'ApproxPos'), ('DynIt', 'DynIt'): FuncInfo('DynIt_make', 'DynIt'),
                     ('PGMType', 'PGMType'): FuncInfo('PGMType_build', 'PGMType', lead_base=(0,))},
     typenames={'K', 'V', 'Item', 'Level', 'PGMType', 'iterator', 'RandomIt', 'In1', 'In2', 'OutIterator'},
@@ -59,6 +63,7 @@ F('Dyn_merge', HPP, 'merge',
   must_fire=('if_constexpr', 'range_copy', 'iter_deref', 'struct_method'))
 F('Dyn_end', HPP, 'end', 'DynIt Dyn_end(const Dyn *self)', ret='DynIt')
 F('Dyn_find', HPP, 'find', 'DynIt Dyn_find(const Dyn *self, K key)', ret='DynIt', params={'key': 'K'}, must_fire=('struct_method', 'method_call', 'iter_arrow'))
+F('Dyn_count', HPP, 'count', 'size_t Dyn_count(const Dyn *self, K key)', ret='size_t', params={'key': 'K'}, must_fire=('operator_call', 'method_call'))
 F('Dyn_insert', HPP, 'insert', 'void Dyn_insert(Dyn *self, const Item *new_item)', ret='void', params={'new_item': 'Ref<Item>'})
 F('Dyn_pairwise_merge', HPP, 'pairwise_merge', 'void Dyn_pairwise_merge(Dyn *self, const Item *new_item, uint8_t target, size_t size_hint, size_t insertion_point)',
   ret='void', params={'new_item': 'Ref<Item>', 'target': 'uint8_t', 'size_hint': 'size_t', 'insertion_point': 'It<Item>'}, params_complete=True,
@@ -81,7 +86,9 @@ typedef struct { uint8_t level; size_t idx; } DynIt;     /* iterator rendered as
 typedef struct { K first; V second; } PairKV;             /* std::pair<K, V> of range()'s result */
 PGMV_DEF_VEC(PairKV)
 '''
-DYNIT = 'static inline DynIt DynIt_make(const Dyn *p, uint8_t level_number, size_t it) { (void)p; return (DynIt){level_number, it}; }\n'
+DYNIT = ('static inline DynIt DynIt_make(const Dyn *p, uint8_t level_number, size_t it) { (void)p; return (DynIt){level_number, it}; }\n'
+         'static inline _Bool DynIt_eq(DynIt a, DynIt b) { return a.level == b.level && a.idx == b.idx; }\n'
+         'static inline _Bool DynIt_ne(DynIt a, DynIt b) { return !DynIt_eq(a, b); }\n')
 LAYOUT = ['struct:Item', 'vec:Item', 'vec:vec_Item', 'vec:PGMType', 'struct:Dyn', 'text:DYNIT']
 MACROS = []
 
